@@ -5,7 +5,8 @@ hugr / tket-exts (0.18 / 0.14).  Contains no compiler logic.  Import it *first*:
 
 It (1) registers a stand-in `tket.bool` HUGR extension (type `bool`; ops read, make_opaque,
 not, eq, and, or, xor) because tket_exts dropped it, (2) aliases tket_exts.qsystem to
-qsystem_helios, (3) gives hugr Node a `metadata` property.  Part of the trusted base of
+qsystem_helios, (3) gives hugr Node a `metadata` property, (4) lets `hugr.val.Extension(...)` accept and
+ignore the `extensions=` keyword that hugr 0.14 had.  Part of the trusted base of
 every correspondence check that needs the full compiler."""
 import os
 import sys
@@ -44,6 +45,14 @@ if not hasattr(tket_exts, "qsystem"):
 _MD = {}
 if not hasattr(_np.Node, "metadata"):
     _np.Node.metadata = property(lambda self: _MD.setdefault(self.idx, {}))
+
+import hugr.val as _hv  # noqa: E402
+
+_orig_ext_init = _hv.Extension.__init__
+if "extensions" not in _orig_ext_init.__code__.co_varnames:
+    def _ext_init(self, name, typ, val, extensions=None):  # hugr >= 0.15 dropped `extensions`
+        _orig_ext_init(self, name, typ, val)
+    _hv.Extension.__init__ = _ext_init
 
 import guppylang  # noqa: E402,F401
 assert guppylang.__file__.startswith(_repo), f"guppylang imported from {guppylang.__file__}, expected {_repo}"
